@@ -653,6 +653,48 @@ func vmFrameOK(vm *VM) bool {
 	return vm != nil && vm.curFrame != nil && vm.sp >= 0 && vm.sp < stackSize && vm.ip >= 0
 }
 
+// specHSane: every handler of the list remembers a non-negative stack pointer.
+func specHSane(h *errHandlers) bool {
+	return h == nil || verifrt.Forall(func(k int) bool {
+		return !(0 <= k && k < len(h.handlers)) || 0 <= h.handlers[k].sp
+	})
+}
+
+// vmPanicPoint: what holds of a VM whenever Go code run by it may panic: the
+// current frame exists, every handler of every frame remembers a
+// non-negative stack pointer, and the frames below the current one (the
+// callers) still have their functions. Nothing is said about sp, ip or an
+// upper bound of frameIndex: the panic may have struck at the limits.
+func vmPanicPoint(vm *VM) bool {
+	return vm != nil && vm.curFrame != nil && vm.bytecode != nil && 1 <= vm.frameIndex &&
+		specHSane(vm.curFrame.errHandlers) &&
+		verifrt.Forall(func(j int) bool {
+			return !(0 <= j && j < frameSize && j <= vm.frameIndex-2) ||
+				(vm.frames[j].fn != nil && specHSane(vm.frames[j].errHandlers))
+		})
+}
+
+// specErrWellFormed: a non-nil error that is not a typed nil pointer of the
+// VM's own error types.
+func specErrWellFormed(err error) bool {
+	if err == nil {
+		return false
+	}
+	switch e := err.(type) {
+	case *RuntimeError:
+		return e != nil
+	case *Error:
+		return e != nil
+	}
+	return true
+}
+
+// vmThrowOK: vmPanicPoint plus the limits handlePanic checks before it
+// re-enters the throw path.
+func vmThrowOK(vm *VM) bool {
+	return vmPanicPoint(vm) && vm.sp < stackSize && vm.frameIndex <= frameSize
+}
+
 // specHandlersOK: every handler remembers a stack pointer inside the stack.
 func specHandlersOK(h []errHandler) bool {
 	return verifrt.Forall(func(k int) bool {
